@@ -25,7 +25,7 @@ ENGINE = os.path.join(VERIF, 'engine')
 HARNESS = os.path.join(VERIF, 'harness')
 
 CLANG_FLAGS = ['-DNDEBUG', '-std=gnu++11', '-O1', '-fno-vectorize', '-fno-slp-vectorize', '-fno-unroll-loops',
-               '-fno-exceptions', '-fno-rtti', '-mllvm', '-simplifycfg-sink-common=false', '-w']
+               '-fno-exceptions', '-fno-rtti', '-fno-pic', '-mllvm', '-simplifycfg-sink-common=false', '-w']
 CBMC_CHECKS = ['--bounds-check', '--pointer-check', '--div-by-zero-check', '--no-malloc-may-fail',
                '--unwinding-assertions']
 
@@ -258,6 +258,9 @@ def build_instance(prep, ob, inst, wd):
     """clang -> IR -> C (+ native drivers). Returns dict of artefacts."""
     os.makedirs(wd, exist_ok=True)
     patch_sources(ob, wd)
+    if ob.get('gen_headers'):
+        for fn, txt in ob['gen_headers'](prep).items():
+            open(os.path.join(wd, fn), 'w').write(txt)
     entry = ob['entry']
     defs = dict(ob.get('defs', {}))
     defs.update(inst.get('defs', {}))
